@@ -408,7 +408,13 @@ def to_int(s, base=10):
 def to_float(s):
     s = SStr.lift(s)
     if s.has_sym():
-        raise Unsupported('float() of a symbolic string')
+        # a string of decimal digits only: the correctly rounded binary64 of the integer it spells (CPython and NumPy
+        # parse decimal text with correct rounding); anything else (sign, point, exponent) is not modelled
+        if not s.items or len(s.items) > 21 or not all(SStr.char_in(c, range(48, 58)) for c in s.items):
+            raise Unsupported('float() of a symbolic string that is not all digits')
+        from . import fp
+        v = to_int(s)
+        return fp.F64(z3.fpUnsignedToFP(fp.RM, z3.Int2BV(v.z3(), 72), fp.SORT))
     return float(''.join(s.items))
 
 
